@@ -67,7 +67,7 @@ Proof.
   change (Z.to_nat 2) with 2%nat. rewrite tb2, (Z.mod_small (x / 256)) by lia. reflexivity.
 Qed.
 
-Lemma write_ext_spec v : 0 <= v < 65804 -> write_extended_field_value v = Ok (nibble v, extended v).
+Lemma write_ext_spec v : 0 <= v <= 65804 -> write_extended_field_value v = Ok (nibble v, extended v).
 Proof.
   intros H. unfold write_extended_field_value, nibble, extended.
   assert (v < 13 \/ 13 <= v < 269 \/ 269 <= v) as [C|[C|C]] by lia.
@@ -75,7 +75,7 @@ Proof.
   - settle. rewrite to_bytes_big_1 by lia. reflexivity.
   - settle. rewrite to_bytes_big_2 by lia. reflexivity.
 Qed.
-Lemma write_ext_reject v : v < 0 \/ 65804 <= v -> write_extended_field_value v = Raise ValueError.
+Lemma write_ext_reject v : v < 0 \/ 65805 <= v -> write_extended_field_value v = Raise ValueError.
 Proof. intros H. unfold write_extended_field_value. settle. reflexivity. Qed.
 
 Lemma from_bytes_big_2 a b : from_bytes_big [a; b] = a * 256 + b.
